@@ -40,6 +40,10 @@ type Sched struct {
 	mu     sync.Mutex
 	parked map[string]*Parked
 	pos    int
+
+	// Current is the task released last. Exactly one task runs between two quiescence points, so code that has
+	// no context to carry its identity (a callback without arguments) can ask who is running.
+	Current string
 }
 
 func NewSched(tape *Tape, stream string, maxSteps int) *Sched {
@@ -92,6 +96,7 @@ func (s *Sched) Release(task, outcome string) {
 	if p == nil {
 		panic(fmt.Sprintf("sched: release of task %q which is not parked", task))
 	}
+	s.Current = task
 	p.ch <- outcome
 }
 
